@@ -33,7 +33,17 @@ func cmdBlackbox(args []string) {
 	logp := fs.String("log", "", "")
 	seed := fs.Int64("seed", 1, "")
 	budget := fs.Float64("budget", 24, "seconds after process start during which requests are sent (< 30)")
+	standalone := fs.Bool("standalone", false, "start the stand-alone reader (reader.Init(cfg, nil): own router, own middlewares, own listener) instead of the binary")
+	corsOv := fs.String("cors", "", "stand-alone only: on / off overrides the CORS setting of the cases' configuration")
+	pair := fs.Int("pair", -1, "stand-alone only: index into standalonePairs, credentials with leading / trailing / inner blanks")
 	fs.Parse(args)
+	bindName := "black-box"
+	if *standalone {
+		bindName = "standalone"
+	}
+	if *pair >= 0 {
+		forcedPair = &standalonePairs[*pair%len(standalonePairs)]
+	}
 	t0 := nowS()
 	if *budget > 27 {
 		*budget = 27
@@ -51,6 +61,10 @@ func cmdBlackbox(args []string) {
 		if !strings.HasPrefix(cs.Route, "rdr:") {
 			continue
 		}
+		if *standalone && rc[cs.Route].Group != "reader" {
+			// reader.performV1APIRouting registers the reader route tables only; gorilla/mux runs middlewares for matched routes
+			continue
+		}
 		if cfg == nil {
 			c := cs.Cfg
 			cfg = &c
@@ -63,6 +77,9 @@ func cmdBlackbox(args []string) {
 	}
 	if len(cases) == 0 {
 		fail("no cases for the rdr world")
+	}
+	if *standalone && *corsOv != "" {
+		cfg.Cors = *corsOv == "on"
 	}
 	cz := Concretizer{*seed}
 	user, pass := cz.str(cfg.Cred, cfg.Cred.U), cz.str(cfg.Cred, cfg.Cred.P)
@@ -91,6 +108,14 @@ func cmdBlackbox(args []string) {
 	hl.Close()
 
 	cmd := exec.Command(*bin)
+	if *standalone {
+		self, err := os.Executable()
+		if err != nil {
+			fail(err.Error())
+		}
+		cmd = exec.Command(self, "serve-standalone", "-user", user, "-pass", pass, "-cors", fmt.Sprint(cfg.Cors),
+			"-port", fmt.Sprint(port), "-chport", fmt.Sprint(ch.Addr().(*net.TCPAddr).Port))
+	}
 	cmd.Env = []string{"PATH=" + os.Getenv("PATH"), "HOME=" + os.TempDir(),
 		"QRYN_LOGIN=" + user, "QRYN_PASSWORD=" + pass, "MODE=reader", "key=1",
 		"CLICKHOUSE_SERVER=127.0.0.1", fmt.Sprintf("CLICKHOUSE_PORT=%d", ch.Addr().(*net.TCPAddr).Port),
@@ -158,6 +183,9 @@ func cmdBlackbox(args []string) {
 		Transport:     &http.Transport{DisableCompression: true, MaxIdleConnsPerHost: 4},
 		CheckRedirect: func(req *http.Request, via []*http.Request) error { return http.ErrUseLastResponse }}
 	res := newResult("real binary (go build of package main), MODE=reader, real HTTP; TCP listener in place of ClickHouse counts connections")
+	if *standalone {
+		res = newResult("stand-alone reader: reader.Init(cfg, nil) in a child process (own router, applyMiddlewares, own listener), real HTTP; TCP listener in place of ClickHouse counts connections")
+	}
 	var tw *jsonLines
 	if *tracep != "" {
 		tw = newJSONLines(*tracep)
@@ -222,7 +250,7 @@ func cmdBlackbox(args []string) {
 		ex := func() *Example {
 			o2 := o
 			o2.Body = trunc(o.Body, 120)
-			return &Example{Case: cs, Obs: o2, User: user, Pass: pass, Auth: auth, HasAuth: has, Path: r.Path, Binding: "black-box", Expected: cs.Exp}
+			return &Example{Case: cs, Obs: o2, User: user, Pass: pass, Auth: auth, HasAuth: has, Path: r.Path, Binding: bindName, Expected: cs.Exp}
 		}
 		res.account(cs, r.Group, o, ex, false)
 		if tw != nil {
